@@ -77,18 +77,53 @@ func distinctOnly(t *testing.T, class, field string, vals [][]byte) {
 	record(t, class, rep, msg)
 }
 
-// TestAEADNonces: the nonce / salt region of every AEAD type, key size and variant.
+// aeadConfigs enumerates every AEAD type x key size x variant and, for the types with a
+// configurable random field, every IV size (AES-CTR-HMAC 12..16) and salt size (X-AES-GCM 8..12).
+func aeadConfigs(t *testing.T) []*aeadcase.Case {
+	var out []*aeadcase.Case
+	key := gen.Expand(seed(), 64)
+	add := func(c aeadcase.Case) {
+		for _, v := range aeadcase.VariantsFor(c.Type) {
+			cc := c
+			cc.Variant, cc.Route = v, "handle"
+			if v != tk.NoPrefix {
+				cc.ID = 0x01020304
+			}
+			if err := cc.Rebuild(); err != nil {
+				t.Fatalf("construction of %v: %v", &cc, err)
+			}
+			out = append(out, &cc)
+		}
+	}
+	for _, kl := range []int{16, 32} {
+		add(aeadcase.Case{Type: "AESGCM", Key: key[:kl], TagSize: 16, NonceLen: 12, IVSize: 12})
+		add(aeadcase.Case{Type: "AESGCMSIV", Key: key[:kl], TagSize: 16, NonceLen: 12, IVSize: 12})
+		for iv := 12; iv <= 16; iv++ {
+			add(aeadcase.Case{Type: "AESCTRHMAC", Key: key[:kl], MacKey: key[32:64], Hash: "SHA256", TagSize: 16, NonceLen: iv, IVSize: iv})
+		}
+	}
+	add(aeadcase.Case{Type: "CHACHA20POLY1305", Key: key[:32], TagSize: 16, NonceLen: 12, IVSize: 12})
+	add(aeadcase.Case{Type: "XCHACHA20POLY1305", Key: key[:32], TagSize: 16, NonceLen: 24, IVSize: 12})
+	for salt := 8; salt <= 12; salt++ {
+		add(aeadcase.Case{Type: "XAESGCM", Key: key[:32], TagSize: 16, NonceLen: salt + 12, IVSize: 12, SaltSize: salt})
+	}
+	for _, kl := range []int{16, 32} { // subtle constructors (no key object)
+		for _, typ := range []string{"AESGCM", "AESGCMSIV"} {
+			c := aeadcase.Case{Type: typ, Key: key[:kl], TagSize: 16, NonceLen: 12, IVSize: 12, Variant: tk.NoPrefix, Route: "subtle"}
+			if err := c.Rebuild(); err != nil {
+				t.Fatal(err)
+			}
+			out = append(out, &c)
+		}
+	}
+	return out
+}
+
+// TestAEADNonces: the nonce / salt region of every AEAD type, key size, IV/salt size and variant.
 func TestAEADNonces(t *testing.T) {
 	detrand.Seed(seed())
 	n := nOps(1)
-	for sel := uint32(0); sel < 36; sel++ { // type x variant x key size
-		c, err := aeadcase.FromBytes(sel, seed()+uint64(sel))
-		if err != nil {
-			t.Fatalf("construction: %v", err)
-		}
-		if sel >= 18 && !(c.Type == "AESGCM" || c.Type == "AESGCMSIV" || c.Type == "AESCTRHMAC") {
-			continue // key size selector only matters for the AES types
-		}
+	for _, c := range aeadConfigs(t) {
 		plen := len(c.Prefix())
 		nonces := make([][]byte, n)
 		pt := []byte("same plaintext every time")
